@@ -85,6 +85,32 @@ pub const PROGRAMS: &[(&str, &str)] = &[
     ("dollar-zero-and-args", "echo \"$#\"\n"),
 ];
 
+/// Pieces that consume source lines in different ways (each ends at a line start).
+pub const LINE_PIECES: &[(&str, &str)] = &[
+    ("plain", "echo a\n"),
+    ("blank", "\n"),
+    ("blanks-with-space", " \n\t\n"),
+    ("comment", "# c\n"),
+    ("continuation", "echo a \\\nb\n"),
+    ("continuation-blank-next", "echo a \\\n\n"),
+    ("continuation-space-next", "echo a \\\n  \n"),
+    ("continuation-twice", "echo a \\\n\\\nb\n"),
+    ("continuation-comment-next", "echo a \\\n# c\n"),
+    ("continuation-only", "\\\n\n"),
+    ("continuation-in-word", "echo a\\\nb\n"),
+    ("dq-multiline", "echo \"a\nb\"\n"),
+    ("sq-multiline", "echo 'a\n\nb'\n"),
+    ("heredoc", "vcat <<EOF\nx\n\nEOF\n"),
+    ("heredoc-empty", "vcat <<EOF\nEOF\n"),
+    ("cmdsub-multiline", "echo $(echo a\n\necho b)\n"),
+    ("group-multiline", "{\necho a\n\n}\n"),
+    ("if-multiline", "if true\nthen\n\necho a\nfi\n"),
+    ("pipe-newline", "echo a |\n\nvcat\n"),
+    ("andor-newline", "true &&\n\necho a\n"),
+    ("array-multiline", "a=(1\n\n2)\n"),
+    ("func-multiline", "f() {\n\necho $LINENO\n}\nf\n"),
+];
+
 fn without_lineno(s: &str) -> bool {
     !s.contains("LINENO")
 }
@@ -140,6 +166,15 @@ pub fn run(tier: Tier, _replay: Option<Value>) -> ! {
     let mut rep = Report::new("C15", tier, "exploration");
     // ---------------------------------------------------------------- programs
     let mut progs: Vec<(String, String)> = PROGRAMS.iter().map(|(n, t)| (n.to_string(), t.to_string())).collect();
+    // $LINENO after each line-consuming piece, and after each ordered pair of pieces
+    for (i, (n1, p1)) in LINE_PIECES.iter().enumerate() {
+        progs.push((format!("lineno-after-{n1}"), format!("{p1}echo L=$LINENO\n")));
+        for (j, (n2, p2)) in LINE_PIECES.iter().enumerate() {
+            if tier == Tier::Thorough || (i + j) % 3 == 0 {
+                progs.push((format!("lineno-after-{n1}-{n2}"), format!("{p1}echo L=$LINENO\n{p2}echo M=$LINENO\n")));
+            }
+        }
+    }
     let leaves = vec![S::Leaf(0), S::Leaf(1)];
     for (k, p) in g::up_to(tier.pick(3, 4), &leaves).iter().enumerate() {
         progs.push((format!("grammar-{k}"), g::script(p, false)));
@@ -345,8 +380,9 @@ pub fn run(tier: Tier, _replay: Option<Value>) -> ! {
     }
     rep.set("programs", progs.len() as u64);
     rep.rule = format!(
-        "(a) {} multi-line feature programs + all grammar programs with <= {} nodes x delivery modes file/-c/source/eval (in-process public entry points) and stdin (real binary), each against bash in the same mode, plus cross-mode equality inside brush; (b) every line-prefix of every program on stdin of the real binary vs bash; (c) all ordered pairs of (text, option-set) pairs ({} texts x 4 option sets{}) and all 64 option orders per text, evaluated by long-lived workers through tokenize_str_with_options, word::parse, arithmetic::parse, Shell::parse_string and the interpreter's pattern cache, against a table computed by one pristine process per pair",
+        "(a) {} multi-line feature programs, $LINENO after each of {} line-consuming pieces and after ordered pairs of them (all pairs at the thorough tier, a third at the quick tier) + all grammar programs with <= {} nodes x delivery modes file/-c/source/eval (in-process public entry points) and stdin (real binary), each against bash in the same mode, plus cross-mode equality inside brush; (b) every line-prefix of every program on stdin of the real binary vs bash; (c) all ordered pairs of (text, option-set) pairs ({} texts x 4 option sets{}) and all 64 option orders per text, evaluated by long-lived workers through tokenize_str_with_options, word::parse, arithmetic::parse, Shell::parse_string and the interpreter's pattern cache, against a table computed by one pristine process per pair",
         PROGRAMS.len(),
+        LINE_PIECES.len(),
         tier.pick(3, 4),
         TEXTS.len(),
         if tier == Tier::Quick { "; cross-text pairs thinned 1/7 at the quick tier" } else { "" }
